@@ -318,3 +318,44 @@ def internal_error(e):
     if line.startswith("raise ") or "ensure(" in line or line.startswith("ensure"):
         return None
     return "%s: %s at %s:%d (%s)" % (type(e).__name__, str(e)[:120], os.path.basename(fn), tb.tb_lineno, line[:80])
+
+
+# ------------------------------------------------------------------ calls the model's signature does not cover
+def guard_signature(f, label):
+    """wrap a model function / method: a call with arguments its signature does not accept (an `out=`,
+    `axis=`, `order=` ... keyword the model never heard of) is a limit of the model - Unsupported - and
+    not the TypeError Python would raise in the frame of the code under test"""
+    import functools
+    import inspect
+
+    try:
+        sig = inspect.signature(f)
+    except (TypeError, ValueError):
+        return f
+    if any(p.kind in (p.VAR_POSITIONAL, p.VAR_KEYWORD) for p in sig.parameters.values()) and all(p.kind in (p.VAR_POSITIONAL, p.VAR_KEYWORD) for p in sig.parameters.values()):
+        return f  # accepts anything
+
+    @functools.wraps(f)
+    def w(*a, **k):
+        try:
+            sig.bind(*a, **k)
+        except TypeError as e:
+            msg = "%s called with arguments the model does not cover (%s)" % (label, e)
+            if active():
+                cur().unsupported = msg
+            raise Unsupported(msg) from None
+        return f(*a, **k)
+
+    w.__pyvc_guarded__ = True
+    return w
+
+
+def guard_methods(cls, label):
+    """apply guard_signature to the public methods of a model class"""
+    import types
+
+    for name, v in list(vars(cls).items()):
+        if name.startswith("_") or not isinstance(v, types.FunctionType) or getattr(v, "__pyvc_guarded__", False):
+            continue
+        setattr(cls, name, guard_signature(v, "%s.%s" % (label, name)))
+    return cls
